@@ -235,7 +235,7 @@ theorem view_additional_types (log : List Ev) (h : ∀ e ∈ log, AddrTy e) :
           | answer => simpa [View.addTo] using hv
           | authority => simpa [View.addTo] using hv
           | additional =>
-            simp only [View.addTo, hs]
+            simp only [View.addTo]
             intro r hr
             rcases List.mem_append.mp hr with h1 | h1
             · exact hv r h1
